@@ -78,7 +78,7 @@ REDEF_SETS = {
             "O2(g)": (157.7, 51.8, 0.056), "H2S(g)": (380.7, 91.7, 0.135), "H2O(g)": (660.2, 226.3, 0.379),
             "NH3(g)": (413.7, 115.8, 0.285)},
     "ideal": None,       # PHASES entry without -T_c / -P_c / -Omega: the gas becomes an ideal gas
-    "crit": "db",        # (database variant "ideal" only) PHASES entry that GIVES the gas the constants of phreeqc.dat
+    "crit": "db",        # (database variant "idealk" only) PHASES entry that GIVES the gas the constants of phreeqc.dat
 }
 AFTER = " after PHASES redefinition"      # part of every fingerprint raised in the redefinition history
 
@@ -100,7 +100,14 @@ def db(variant):
         if variant == "pr":
             line = drv.cmdline("call", "s0", "c", "LoadDatabase", DBFILE)
         else:
-            text = G.strip_critical_constants(text) if variant == "ideal" else G.replace_binary_parameters(text, KIJ_TABLE)
+            if variant == "ideal":
+                text = G.strip_critical_constants(text)
+            elif variant == "idealk":
+                # no critical constants, but the GAS_BINARY_PARAMETERS block kept: for the history in which PHASES later GIVES
+                # the gases critical constants (without the block the engine would use its documented hard-coded k_ij)
+                text = G.strip_critical_constants(text, keep_binary=True)
+            else:
+                text = G.replace_binary_parameters(text, KIJ_TABLE)
             line = drv.cmdline("call", "s0", "c", "LoadDatabaseString", text)
         gases, kij = G.parse_gas_data(text)
         for g in GASES:
@@ -319,6 +326,16 @@ class Judge:
             return "ideal"
         return "mixed"
 
+    def phi_before(self, names, x, T, P):
+        g = [self.gdb_before[n] for n in names]
+        if not all(v["tc"] > 0 and v["pc"] > 0 for v in g):
+            return [1.0] * len(names) if all(v["tc"] == 0 and v["pc"] == 0 for v in g) else None
+        mix = G.Mixture(names, x, T, self.gdb_before, self.kij)
+        roots, near, _, _ = mix.z_roots(P)
+        if len(roots) != 1 or near:
+            return None
+        return [math.exp(v) for v in mix.ln_phi(P, roots[0])]
+
     # -- one gas-phase row -------------------------------------------------------------------
     def gas_row(self, row, where):
         c = self.case
@@ -429,6 +446,12 @@ class Judge:
                 if r > TOL_PHI:
                     self.bad("fugacity coefficient %s" % tag, "%s: PR_PHI=%r, equation of state gives %r (rel %.3g) at P=%r T=%r x=%r; case %r" % (
                         names[k], phi[k], oracle_phi[k], r, P, T, dict(zip(names, x)), c))
+        if self.gdb_before is not None and judged_phi:
+            # vacuity guard of the redefinition history: would the constants used BEFORE the redefinition have given a
+            # visibly different fugacity coefficient here?  (only counted, never judged)
+            old = self.phi_before([names[k] for k in live], xl, T, P)
+            if old and any(oracle_phi[k] is not None and G.rel(old[kk], oracle_phi[k]) > 10 * TOL_PHI for kk, k in enumerate(live)):
+                self.flags.add("redef: discriminating (old constants would give another phi)")
         # (e) fugacity = 10^SI
         for k in live:
             f = phi[k] * p[k]
@@ -534,6 +557,10 @@ class Judge:
                         r = G.rel(phi, o)
                         self.stat("equi: phi", r)
                         self.flags.add("equi:one-root")
+                        if self.gdb_before is not None:
+                            ob = self.phi_before([g], [1.0], T, p)
+                            if ob and G.rel(ob[0], o) > 10 * TOL_PHI:
+                                self.flags.add("redef: discriminating (old constants would give another phi)")
                         if r > TOL_PHI:
                             self.bad("fugacity coefficient %s" % tag, "%s: PR_PHI=%r, pure-gas equation of state at P=%r T=%r gives %r (rel %.3g); case %r" % (g, phi, p, T, o, r, c))
                     else:
@@ -543,53 +570,153 @@ class Judge:
 
 
 # ------------------------------------------------------------------------------------------------ one case
-def run_case(case):
-    line, gases_db, kij = db(case["db"])
-    d = core.get_drv("rel")
-    d.reset()
+def execute(d, line, texts, kind, want_dump, case):
+    """Fresh instance, database variant loaded, the RunString texts in order.  Returns {"error": first error line} or
+    {"row": the batch-reaction row of the last call, "heads": [...], "dump": str or None, "ops": n}."""
     d.new("c")
     rep = d.raw(line)
     if rep.get("r") != 0:
         raise RuntimeError("database variant %s does not load: %r" % (case["db"], d.call("s0", "c", "GetErrorString")[:400]))
-    text = build_input(case)
-    want_dump = case["kind"] == "gas" and case["init"] == "pp"
     if want_dump:
         d.call("s0", "c", "SetDumpStringOn", 1)
-    rc = d.call("s0", "c", "RunString", text)
-    j = Judge(case, gases_db, kij)
-    res = {"case": case, "ops": 1, "states": [core.sha(repr(sorted(case.items())))]}
-    if isinstance(rc, dict) or rc != 0:
-        err = "" if isinstance(rc, dict) else d.call("s0", "c", "GetErrorString")
-        first = next((l for l in err.splitlines() if l.strip()), "")
-        res.update({"problems": [], "not_completed": True, "outcome": "nc:" + core.sha(first[:60]),
-                    "sample": {"case": case, "rc": rc if not isinstance(rc, dict) else "exit", "error": first[:200]}, "script": "",
-                    "stats": {}, "flags": ["not-completed"], "nc": first[:70]})
-        return res
+    for k, text in enumerate(texts):
+        rc = d.call("s0", "c", "RunString", text)
+        if isinstance(rc, dict) or rc != 0:
+            err = "" if isinstance(rc, dict) else d.call("s0", "c", "GetErrorString")
+            first = next((l for l in err.splitlines() if l.strip()), "")
+            return {"error": first, "rc": rc if not isinstance(rc, dict) else "exit", "ops": k + 1, "call": k}
     t = d.obs("s0", "c", "t")["sel"].get("1", {}).get("table") or []
     if len(t) < 2:
         raise RuntimeError("no selected-output rows for %r" % (case,))
     heads = t[0]
     rows = [dict(zip(heads, r)) for r in t[1:]]
-    need = ["state", "tk"] + (["pressure", "total mol", "volume", "gp", "gvm"] if case["kind"] == "gas" else [])
+    need = ["state", "tk"] + (["pressure", "total mol", "volume", "gp", "gvm"] if kind == "gas" else [])
     for h in need:
         if h not in heads:
             raise RuntimeError("selected-output column %r missing (have %r)" % (h, heads))
     react = [r for r in rows if r["state"] == "react"]
     if len(react) != 1:
         raise RuntimeError("expected exactly one batch-reaction row, got %d for %r" % (len(react), case))
+    return {"row": react[0], "heads": heads, "dump": d.call("s0", "c", "GetDumpString") if want_dump else None, "ops": len(texts)}
+
+
+def compare_with_fresh(j, row, ref):
+    """History 'redef': the judged row must equal the row of the same redefinition + calculation on a fresh instance,
+    within the tolerances of the statement (state variables and amounts 1e-4, fugacity coefficients 1e-6, 10^SI 1e-4).
+    Rows whose reported total pressure is outside 0.01..1000 atm (in either instance) are outside the quantifier.
+    Components below mole fraction X_MIN (in either instance) are not compared component-wise."""
+    c = j.case
+    names = c["gases"]
+    kind = c["kind"]
+    tag = ("type=%s" % c["type"] if kind == "gas" else "equilibrium_phases") + AFTER
+
+    def num(r, k):
+        v = cell(r, k)
+        return v if isinstance(v, (int, float)) and v == v and abs(v) != float("inf") else None
+
+    groups = []          # (relation name in the fingerprint, column, tolerance, transform)
+    live = list(range(len(names)))
+    if kind == "gas":
+        na, nb = num(row, "total mol"), num(ref, "total mol")
+        if na is None or nb is None:
+            return        # non-numeric read-outs are reported by gas_row
+        if (na > 0) != (nb > 0):
+            j.bad("differs from fresh instance: gas phase existence %s" % tag,
+                  "gas phase %s after the history but %s on a fresh instance with the same PHASES redefinition (total mol %r vs %r); case %r" % (
+                      "present" if na > 0 else "absent", "present" if nb > 0 else "absent", na, nb, c))
+            return
+        if na <= 0:
+            j.flags.add("redef: absent in both instances")
+            return
+        pa, pb = num(row, "pressure"), num(ref, "pressure")
+        if pa is None or pb is None or not (P_MIN <= pa <= P_MAX and P_MIN <= pb <= P_MAX):
+            # same quantifier as the oracle: rows with a reported pressure outside 0.01..1000 atm are not judged (a gas
+            # phase of 1e-14 mol left over by a redox-reactive pair is solver noise, not a result)
+            j.flags.add("redef: P outside 0.01..1000 atm (not compared)")
+            return
+        for r in (row, ref):
+            n = [num(r, "n%d" % k) or 0.0 for k in range(len(names))]
+            live = [k for k in live if sum(n) > 0 and n[k] / sum(n) >= X_MIN]
+        groups += [("state (P, V, n, T)", h, TOL_EOS, None) for h in ("tk", "pressure", "total mol", "volume", "gp", "gvm")]
+    else:
+        groups.append(("state (P, V, n, T)", "tk", TOL_EOS, None))
+        live = [k for k in live if (num(row, "n%d" % k) or 0) > 0 and (num(ref, "n%d" % k) or 0) > 0]
+        for k in range(len(names)):
+            if ((num(row, "n%d" % k) or 0) > 0) != ((num(ref, "n%d" % k) or 0) > 0):
+                j.bad("differs from fresh instance: phase exhausted %s" % tag, "%s: amount %r after the history, %r on a fresh instance; case %r" % (
+                    names[k], num(row, "n%d" % k), num(ref, "n%d" % k), c))
+    # fugacity coefficients first: only the FIRST differing quantity of a case is reported (one cause makes all of them
+    # differ; the statistics still cover every quantity)
+    groups = [("fugacity coefficient", "phi%d" % k, TOL_PHI, None) for k in live] + groups
+    for k in live:
+        groups += [("amount", "n%d" % k, TOL_EOS, None), ("partial pressure", "p%d" % k, TOL_EOS, None), ("10^SI", "si%d" % k, TOL_ID, p10)]
+    reported = False
+    for what, h, tol, f in groups:
+        a, b = num(row, h), num(ref, h)
+        if a is None or b is None:
+            continue
+        if f:
+            a, b = f(a), f(b)
+        r = G.rel(a, b)
+        j.stat("redef: %s equals fresh instance" % what, r)
+        if r > tol and not reported:
+            reported = True
+            j.bad("differs from fresh instance: %s %s" % (what, tag),
+                  "column %s: %r after (calculation with the database's gas, then PHASES redefinition), %r with the same PHASES redefinition on a fresh instance (rel %.3g, tolerance %g); case %r" % (
+                      h, cell(row, h), cell(ref, h), r, tol, c))
+
+
+def run_case(case):
+    line, gases_db, kij = db(case["db"])
+    d = core.get_drv("rel")
+    d.reset()
+    redef = case.get("hist") == "redef"
+    want_dump = case["kind"] == "gas" and case["init"] == "pp"
+    res = {"case": case, "states": [core.sha(repr(sorted(case.items())))]}
+    ref = None
+    script = ""
+    if redef:
+        texts, texts_ref = redef_texts(case)
+        # reference first: a fresh instance that reads the same PHASES redefinition and runs the same calculation
+        ref = execute(d, line, texts_ref, case["kind"], False, case)
+        script = d.script()
+        d.reset()
+    else:
+        texts = [build_input(case)]
+    out = execute(d, line, texts, case["kind"], want_dump, case)
+    res["ops"] = out["ops"] + (ref["ops"] if ref else 0)
+    j = Judge(case, gases_in_force(case, gases_db), kij, gases_db if redef else None)
+    if "error" in out:
+        first = out["error"]
+        if redef:
+            first = "redef call %d/%d: %s" % (out["call"] + 1, len(texts), first)
+        res.update({"problems": [], "not_completed": True, "outcome": "nc:" + core.sha(first[:60]),
+                    "sample": {"case": case, "rc": out["rc"], "error": first[:200]}, "script": "",
+                    "stats": {}, "flags": ["not-completed"], "nc": first[:70]})
+        return res
+    heads, row = out["heads"], out["row"]
     if case.get("hist") == "warm":
         j.flags.add("history:warm (judged after the same calculation at %g C in the same instance)" % T_WARM)
+    if redef:
+        j.flags.add("history:redef (judged after a calculation with the database's gas and a PHASES redefinition in the same instance)")
     if case["kind"] == "equi":
-        j.equi_row(react[0])
+        j.equi_row(row)
     else:
-        j.gas_row(react[0], "react")
+        j.gas_row(row, "react")
         if want_dump:
-            j.initial_definition(parse_gas_raw(d.call("s0", "c", "GetDumpString")))
+            j.initial_definition(parse_gas_raw(out["dump"]))
+    if redef:
+        if "error" in ref:
+            # the reference did not complete although the run with history did: nothing to compare with (rule R2)
+            j.flags.add("redef: fresh-instance reference not completed")
+            j.diags.append("fresh-instance reference did not complete (%s) although the run with history did: %r" % (ref["error"][:80], case))
+        else:
+            compare_with_fresh(j, row, ref["row"])
     keep = ["tk", "pressure", "total mol", "volume", "gp", "gvm"] + [h for h in heads if h[:1] in "nps" and h[-1:].isdigit()] + [h for h in heads if h.startswith("phi")]
     res.update({"problems": j.problems, "not_completed": False, "diagnostics": j.diags[:2],
                 "outcome": ",".join(sorted(j.flags)) + "|" + ",".join(sorted(k for k in j.stats)),
-                "sample": {"case": case, "react_row": {k: react[0].get(k) for k in keep if k in react[0]}},
-                "script": d.script() if j.problems else "", "stats": j.stats, "flags": sorted(j.flags)})
+                "sample": {"case": case, "react_row": {k: row.get(k) for k in keep if k in row}},
+                "script": (script + d.script()) if j.problems else "", "stats": j.stats, "flags": sorted(j.flags)})
     return res
 
 
@@ -666,6 +793,34 @@ def equi_cases(dbv, subs, plevels, tlevels):
     return [{"kind": "equi", "db": dbv, "gases": gs, "hist": hist, "P": P, "T": T} for (gs, hist, P, T) in core.product(subs, ["fresh", "warm"], plevels, tlevels)]
 
 
+# history 'redef': gas subsets (all single gases, three pairs: plain, with a k_ij in the database, without), kinds, ways
+REDEF_PAIRS = [["CO2(g)", "CH4(g)"], ["H2O(g)", "CO2(g)"], ["N2(g)", "O2(g)"]]
+REDEF_KINDS = ["P", "V", "equi"]
+REDEF_HOW = ["sim", "call"]
+
+
+def redef_cases(subs, plevels, tlevels, pres):
+    """database x redefinition set x gas subset x which gases are redefined x kind x how x temperature of the first
+    calculation x P x T.  Mixed ideal / Peng-Robinson phases (not defined by the statement) are left out: the sets that
+    change the kind of equation of state always redefine every gas of the subset."""
+    out = []
+    variants = []            # (db, set, gases, which)
+    for dbv, sets in (("pr", ["alt", "fit", "ideal"]), ("idealk", ["crit"])):
+        for rs in sets:
+            for gs in subs:
+                variants.append((dbv, rs, gs, "all"))
+                if len(gs) > 1 and rs in ("alt", "fit"):
+                    variants.append((dbv, rs, gs, "first"))
+    variants.sort(key=lambda v: (len(v[2]), v[3] != "all"))
+    for ((dbv, rs, gs, which), kind, how, pre, P, T) in core.product(variants, REDEF_KINDS, REDEF_HOW, pres, plevels, tlevels):
+        c = {"kind": "equi" if kind == "equi" else "gas", "db": dbv, "gases": gs, "hist": "redef", "redef": rs, "which": which,
+             "how": how, "pre": pre, "P": P, "T": T}
+        if kind != "equi":
+            c.update({"type": kind, "init": "pp", "soln": "water"})
+        out.append(c)
+    return out
+
+
 def kij_subsets(kmax):
     touched = [frozenset((a, b)) for a, b, _ in KIJ_TABLE]
     return [s for s in subsets(kmax) if any(p <= frozenset(s) for p in touched)]
@@ -681,6 +836,8 @@ def bounds(tier):
             ("Peng-Robinson: subsets<=2 x 11 modes x 8 P x 3 T", gas_cases("pr", s2, P_LEVELS, tl)),
             ("altered k_ij: affected pairs x 11 modes x 8 P x 3 T", gas_cases("kij", [s for s in kij_subsets(2)], P_LEVELS, tl)),
             ("EQUILIBRIUM_PHASES: subsets<=2 x {fresh, warm} x 8 P x 3 T x {ideal, PR}", equi_cases("ideal", s2, P_LEVELS, tl) + equi_cases("pr", s2, P_LEVELS, tl)),
+            ("PHASES redefinition of a used gas: {7 single gases, 3 pairs} x {literature, fitted, no constants | ideal db: constants given} x {all, first gas} x {fixed P, fixed V, EQUILIBRIUM_PHASES} x {later simulation, later RunString} x 8 P x 3 T",
+             redef_cases(subsets(1) + REDEF_PAIRS, P_LEVELS, tl, ["same"])),
         ]
     s3 = subsets(3)
     pl = P_LEVELS_T
@@ -690,6 +847,8 @@ def bounds(tier):
         ("altered k_ij: affected subsets<=3 x 18 modes x 10 P x 4 T", gas_cases("kij", kij_subsets(3), pl, T_LEVELS, MODES_T)),
         ("EQUILIBRIUM_PHASES: subsets<=2 x {fresh, warm} x 10 P x 4 T x {ideal, PR, altered k_ij (single gases)}",
          equi_cases("ideal", subsets(2), pl, T_LEVELS) + equi_cases("pr", subsets(2), pl, T_LEVELS) + equi_cases("kij", subsets(1), pl, T_LEVELS)),
+        ("PHASES redefinition of a used gas: subsets<=2 x {literature, fitted, no constants | ideal db: constants given} x {all, first gas} x {fixed P, fixed V, EQUILIBRIUM_PHASES} x {later simulation, later RunString} x first calculation at {same T, 60 C} x 10 P x 4 T",
+         redef_cases(subsets(2), pl, T_LEVELS, ["same", "warm"])),
     ]
 
 
@@ -718,6 +877,7 @@ def run(tier):
         "every solution has 0.1 kg water and the gas 1 L (initially), so that low-pressure gas is not a trace of the system",
         "pre-saturated solutions: pH by charge balance, phase boundary of each gas's element/valence at the gas's partial pressure; NH3 boundary capped at 0.1 atm (phreeqc.dat has no aqueous solution for NH3 at >= 1 atm)",
         "history 'warm' = the same calculation at 60 C (reactants numbered 9) precedes the judged one in the same instance; only the second is judged",
+        "history 'redef' = (1) the calculation with the database's gas (reactants numbered 9, at the same T and P; thorough also at 60 C), (2) a PHASES block that redefines the gas(es) with the database's reaction and log K and other / no / newly given critical constants, (3) the calculation again; 'sim': (1) is simulation 1 and (2)+(3) simulation 2 of one RunString, 'call': three RunString calls.  (3) is judged by the oracle with the constants of the PHASES block and compared with the same (2)+(3) on a fresh instance (state variables, amounts, partial pressures, 10^SI 1e-4; fugacity coefficients 1e-6).  Phases mixing ideal and Peng-Robinson gases are not in the statement and are not generated",
         "not-completed runs (rc != 0) are counted and not judged; they are convergence failures of the batch reaction, mostly at 300/1000 atm or in redox-reactive gas pairs",
         "EQUILIBRIUM_PHASES: the fugacity coefficient is compared with the pure-gas equation of state for a single gas only; for two gases only fugacity = 10^SI is judged",
     ]
@@ -763,8 +923,11 @@ def run(tier):
     ev.extra["relations"] = {k: {"judged": v[0], "max_residual": v[1]} for k, v in sorted(st.rel.items())}
     ev.extra["row_classes"] = dict(sorted(st.flags.items()))
     ev.extra["alphabet"] = {"gases": GASES, "P_atm": P_LEVELS if tier == "quick" else P_LEVELS_T, "T_C": T_LEVELS if tier != "quick" else [25.0, 100.0, 200.0],
-                            "modes (type, init, solution, history)": MODES if tier == "quick" else MODES_T, "databases": ["ideal", "pr", "kij"],
-                            "kij_table": KIJ_TABLE}
+                            "modes (type, init, solution, history)": MODES if tier == "quick" else MODES_T, "databases": ["ideal", "pr", "kij", "idealk (redefinition history only: no critical constants, GAS_BINARY_PARAMETERS kept)"],
+                            "kij_table": KIJ_TABLE,
+                            "redefinition sets (T_c K, P_c atm, omega)": {k: v for k, v in REDEF_SETS.items() if isinstance(v, dict)},
+                            "redefinition history": {"pairs": REDEF_PAIRS if tier == "quick" else "all", "kinds": REDEF_KINDS, "how": REDEF_HOW,
+                                                     "first calculation at": ["same T"] if tier == "quick" else ["same T", "%g C" % T_WARM]}}
     pool.close()
     # vacuity guards (harness errors, exit 2)
     if total and st.completed < 0.5 * total:
@@ -776,6 +939,13 @@ def run(tier):
         warm = sum(v for k, v in st.flags.items() if k.startswith("history:warm"))
         if warm < 50:
             harness_error("C19 harness: only %d completed rows in the history dimension" % warm)
+        redef = sum(v for k, v in st.flags.items() if k.startswith("history:redef"))
+        discr = sum(v for k, v in st.flags.items() if k.startswith("redef: discriminating"))
+        if redef < 500 or discr < 200:
+            harness_error("C19 harness: redefinition history: only %d completed rows, %d of them where the constants in force before the redefinition would give a visibly different fugacity coefficient" % (redef, discr))
+        for k in ("redef: fugacity coefficient equals fresh instance", "redef: state (P, V, n, T) equals fresh instance", "redef: 10^SI equals fresh instance"):
+            if st.rel.get(k, [0])[0] < 500:
+                harness_error("C19 harness: relation %r was judged only %d times" % (k, st.rel.get(k, [0])[0]))
         if len(ev.outcomes) < 10:
             harness_error("C19 harness: only %d distinct outcomes" % len(ev.outcomes))
     return core.finish(ev, findings)
